@@ -381,7 +381,9 @@ def h_isinstance(I, args, kw, st, n):
     elif isinstance(v, (Arr, ArrParam, LocalArr)): vt = {"ndarray"}
     elif v is None: vt = {"NoneType"}
     elif isinstance(v, X):
-        return Opaque("isinstance of number")
+        if names & {"int", "float", "complex", "Number", "Real", "Integral", "integer", "floating", "bool", "number", "generic"}:
+            return Opaque("isinstance of number")
+        return False
     elif isinstance(v, (Func, Lib)): vt = {"function"}
     else: return Opaque("isinstance")
     return bool(vt & names)
